@@ -305,15 +305,16 @@ func (en *Engine) verifyUnit(u *UnitInfo) *UnitResult {
 		for i, c := range spec.clauses("ensures") {
 			if strings.HasPrefix(c.Name, "local:") {
 				// an exit obligation over local variables: checked on the paths where they are bound
+				// evaluated on a copy of the state: a clause that mentions a local not bound on this path is dropped
+				// together with everything its partial evaluation recorded (instances, read notes)
 				nUnd := len(x.undecided)
-				npc := len(st.pc)
-				g := x.cxBool(st, c.Expr, x.entry, binds)
+				st2 := st.clone()
+				g := x.cxBool(st2, c.Expr, x.entry, binds)
 				if len(x.undecided) > nUnd {
 					x.undecided = x.undecided[:nUnd]
-					st.pc = st.pc[:npc]
 					continue
 				}
-				x.oblige(st, "ensures", "ensures["+c.Name+"]", g, nil)
+				x.oblige(st2, "ensures", "ensures["+c.Name+"]", g, nil)
 				continue
 			}
 			g := x.cxBool(st, c.Expr, x.entry, binds)
@@ -327,15 +328,15 @@ func (en *Engine) verifyUnit(u *UnitInfo) *UnitResult {
 		// it is a vacuity alarm only when no path reaches it)
 		for i, c := range spec.clauses("cover") {
 			nUnd := len(x.undecided)
-			npc := len(st.pc)
-			g := x.cxBool(st, c.Expr, x.entry, binds)
+			st2 := st.clone()
+			g := x.cxBool(st2, c.Expr, x.entry, binds)
 			if len(x.undecided) > nUnd {
 				// mentions a local that is not bound on this path
 				x.undecided = x.undecided[:nUnd]
-				st.pc = st.pc[:npc]
+				st2 = st
 				g = "false"
 			}
-			if tw := x.oblige(st, "twin", "twin[cover["+clauseLabel(c, i)+"]]", sNot(g), nil); tw != nil {
+			if tw := x.oblige(st2, "twin", "twin[cover["+clauseLabel(c, i)+"]]", sNot(g), nil); tw != nil {
 				tw.Expect = "sat"
 			}
 		}
